@@ -1257,7 +1257,9 @@ func (in *inliner) devirtPerPred(f *ssa.Function, b *ssa.BasicBlock) bool {
 			if !ok {
 				continue
 			}
-			if _, isSig := al.Type().(*types.Pointer).Elem().Underlying().(*types.Signature); !isSig {
+			_, isSig := al.Type().(*types.Pointer).Elem().Underlying().(*types.Signature)
+			_, isIface := al.Type().(*types.Pointer).Elem().Underlying().(*types.Interface)
+			if !isSig && !isIface {
 				continue
 			}
 			// only read and written here, by plain loads and stores
@@ -1281,8 +1283,20 @@ func (in *inliner) devirtPerPred(f *ssa.Function, b *ssa.BasicBlock) bool {
 				continue
 			}
 			fns := map[*ssa.Function]bool{}
+			tys := 0
 			okAll := true
 			for _, p := range b.Preds {
+				if isIface {
+					T, isNil, ok := constTypeBefore(al, p, len(p.Instrs), 0)
+					if !ok {
+						okAll = false
+						break
+					}
+					if !isNil && T != nil {
+						tys++
+					}
+					continue
+				}
 				fn, isNil, ok := constFuncAtEnd(al, p)
 				if !ok {
 					okAll = false
@@ -1292,7 +1306,7 @@ func (in *inliner) devirtPerPred(f *ssa.Function, b *ssa.BasicBlock) bool {
 					fns[fn] = true
 				}
 			}
-			if okAll && len(fns) >= 1 && len(b.Preds) >= 2 {
+			if okAll && (len(fns) >= 1 || tys >= 1) && len(b.Preds) >= 2 {
 				cands = append(cands, al)
 			}
 		}
@@ -1348,7 +1362,7 @@ func (in *inliner) devirtPerPred(f *ssa.Function, b *ssa.BasicBlock) bool {
 				if st, isSt := x.(*ssa.Store); isSt && st.Addr == ssa.Value(al) {
 					stored = true
 				}
-				if call, isCall := x.(*ssa.Call); isCall && !call.Call.IsInvoke() {
+				if call, isCall := x.(*ssa.Call); isCall {
 					if ld, isLd := call.Call.Value.(*ssa.UnOp); isLd && ld.Op == token.MUL && ld.X == ssa.Value(al) {
 						called = true
 					}
@@ -1440,6 +1454,41 @@ func (in *inliner) devirtPerPred(f *ssa.Function, b *ssa.BasicBlock) bool {
 	for ci, blks := range copies {
 		head := blks[0]
 		for _, al := range vars {
+			if _, isIface := al.Type().(*types.Pointer).Elem().Underlying().(*types.Interface); isIface {
+				T, isNil, ok := constTypeBefore(al, head.Preds[0], len(head.Preds[0].Instrs), 0)
+				if !ok {
+					continue
+				}
+				for _, blk := range blks {
+					for idx := 0; idx < len(blk.Instrs); idx++ {
+						switch t := blk.Instrs[idx].(type) {
+						case *ssa.Call:
+							ld, isLd := t.Call.Value.(*ssa.UnOp)
+							if !t.Call.IsInvoke() || !isLd || ld.Op != token.MUL || ld.X != ssa.Value(al) || isNil || T == nil {
+								continue
+							}
+							if in.devirtAt(f, blk, idx, T) {
+								idx++
+							}
+						case *ssa.BinOp:
+							if t.Op != token.EQL && t.Op != token.NEQ {
+								continue
+							}
+							var other ssa.Value
+							if ld, isLd := t.X.(*ssa.UnOp); isLd && ld.Op == token.MUL && ld.X == ssa.Value(al) {
+								other = t.Y
+							} else if ld, isLd := t.Y.(*ssa.UnOp); isLd && ld.Op == token.MUL && ld.X == ssa.Value(al) {
+								other = t.X
+							}
+							if c0, isC := other.(*ssa.Const); isC && c0.IsNil() {
+								res := (t.Op == token.EQL) == isNil
+								replaceUses(t, ssa.NewConst(constant.MakeBool(res), t.Type()))
+							}
+						}
+					}
+				}
+				continue
+			}
 			fn, isNil, ok := constFuncAtEnd(al, head.Preds[0])
 			if !ok {
 				continue
@@ -1480,6 +1529,118 @@ func (in *inliner) devirtPerPred(f *ssa.Function, b *ssa.BasicBlock) bool {
 	}
 	in.regionCopies++
 	return true
+}
+
+// constTypeBefore: what the interface variable al holds just before instruction number idx of blk, searching
+// back along the straight line of unique predecessors: a value of one known concrete type (the last
+// assignment is a conversion of a non-interface value), or nil / nothing since its declaration.
+func constTypeBefore(al *ssa.Alloc, blk0 *ssa.BasicBlock, idx int, depth int) (T types.Type, isNil bool, ok bool) {
+	if depth > 3 {
+		return nil, false, false
+	}
+	seen := map[*ssa.BasicBlock]bool{}
+	first := true
+	for blk := blk0; blk != nil && !seen[blk]; {
+		seen[blk] = true
+		from := len(blk.Instrs) - 1
+		if first {
+			from = idx - 1
+			first = false
+		}
+		for i := from; i >= 0; i-- {
+			if st, isSt := blk.Instrs[i].(*ssa.Store); isSt && st.Addr == ssa.Value(al) {
+				v := st.Val
+				if ci, isCI := v.(*ssa.ChangeInterface); isCI {
+					v = ci.X
+				}
+				if mi, isMI := v.(*ssa.MakeInterface); isMI {
+					return mi.X.Type(), false, true
+				}
+				if c0, isC := v.(*ssa.Const); isC && c0.IsNil() {
+					return nil, true, true
+				}
+				if ld, isLd := v.(*ssa.UnOp); isLd && ld.Op == token.MUL && ld.Block() == blk {
+					if src, isAl := ld.X.(*ssa.Alloc); isAl && src != al {
+						return constTypeBefore(src, blk, instrIdx(ld), depth+1)
+					}
+				}
+				return nil, false, false
+			}
+			if blk.Instrs[i] == ssa.Instruction(al) {
+				return nil, true, true
+			}
+		}
+		if len(blk.Preds) != 1 {
+			return nil, false, false
+		}
+		blk = blk.Preds[0]
+	}
+	return nil, false, false
+}
+
+// devirtAt makes the invoke at b.Instrs[idx] a direct call of T's method on the receiver asserted back
+// to T (inserted before the call); false when T's method is not a function of the module.
+func (in *inliner) devirtAt(f *ssa.Function, b *ssa.BasicBlock, idx int, T types.Type) bool {
+	x := b.Instrs[idx]
+	cc := callCommon(x)
+	if cc == nil || !cc.IsInvoke() {
+		return false
+	}
+	sel := f.Prog.MethodSets.MethodSet(T).Lookup(cc.Method.Pkg(), cc.Method.Name())
+	if sel == nil {
+		return false
+	}
+	m := f.Prog.MethodValue(sel)
+	if m == nil || m.Pkg == nil || !strings.HasPrefix(m.Pkg.Pkg.Path(), modPath) || len(m.Blocks) == 0 {
+		return false
+	}
+	ta := &ssa.TypeAssert{X: cc.Value, AssertedType: T}
+	ssa.XSetType(ta, T)
+	ssa.XSetPos(ta, x.Pos())
+	ssa.XSetBlock(ta, b)
+	addRef(cc.Value, ta)
+	delRef(cc.Value, x)
+	b.Instrs = append(b.Instrs[:idx:idx], append([]ssa.Instruction{ta}, b.Instrs[idx:]...)...)
+	cc.Value = m
+	cc.Method = nil
+	cc.Args = append([]ssa.Value{ta}, cc.Args...)
+	addRef(ta, x)
+	in.devirt++
+	return true
+}
+
+// devirtIfaceMerges: an interface variable that holds a value of one known type on each way into a merge
+// block and is called through after it (`c := e.pick(); if c != nil { return c.Evaluate(..) }` with pick
+// inlined): the code after the merge is copied per way in, each copy calling its type's method directly.
+func (in *inliner) devirtIfaceMerges(f *ssa.Function) {
+	for round := 0; round < 20; round++ {
+		changed := false
+		for _, b := range f.Blocks {
+			if len(b.Preds) < 2 {
+				continue
+			}
+			has := false
+			for _, x := range b.Instrs {
+				if call, ok := x.(*ssa.Call); ok && call.Call.IsInvoke() {
+					if ld, isLd := call.Call.Value.(*ssa.UnOp); isLd && ld.Op == token.MUL {
+						if _, isAl := ld.X.(*ssa.Alloc); isAl {
+							has = true
+						}
+					}
+				}
+			}
+			if has && in.devirtPerPred(f, b) {
+				in.touched[f] = true
+				changed = true
+				break
+			}
+		}
+		if !changed {
+			break
+		}
+		in.finish(f)
+		delete(in.touched, f)
+	}
 }
 
 // constFuncAtEnd: along the straight line of unique predecessors that ends in p the variable
@@ -3838,6 +3999,7 @@ func inlineHelpers(tops []*ssa.Function) (dropped map[*ssa.Function]bool, notes 
 		for _, f := range fs {
 			in.flagsUnderGuard(f)
 			in.devirtKnown(f)
+			in.devirtIfaceMerges(f)
 		}
 	}
 
